@@ -13,6 +13,9 @@
 //!   loop 0 proof <text>                      # proof block at the head of the loop body
 //!   proof begin: <text>
 //!   proof end: <text>
+//!   closure 0 binder r: Type               # closures are numbered in source order within the fn
+//!   closure 0 requires name: <expr>
+//!   closure 0 ensures name: <expr>
 //!   call <callee> with Tracked(log)          # R6 (callee: bare fn/method name or full "recv.method" / "a::b")
 //!   call? <callee> with Tracked(log)         # same, but the call may be absent under some cfg sets
 //!   shape contains: <tokens>                 # syntactic shape check on the generated fn text (A-rust)
@@ -38,6 +41,13 @@ pub struct LoopContract {
 }
 
 #[derive(Debug, Clone, Default)]
+pub struct ClosureContract {
+    pub binder: Option<String>,
+    pub requires: Vec<Clause>,
+    pub ensures: Vec<Clause>,
+}
+
+#[derive(Debug, Clone, Default)]
 pub struct CallWith {
     pub pattern: String,
     pub with: String,
@@ -59,11 +69,14 @@ pub struct FnContract {
     pub ensures: Vec<Clause>,
     pub decreases: Option<String>,
     pub loops: BTreeMap<usize, LoopContract>,
+    pub closures: BTreeMap<usize, ClosureContract>,
     pub proof_end: Option<String>,
     pub proof_begin: Option<String>,
+    pub ghost_begin: Option<String>,
     pub calls: Vec<CallWith>,
     pub shapes: Vec<Shape>,
     pub props: Vec<String>,
+    pub only_feature: Option<String>,
 }
 
 #[derive(Debug, Default)]
@@ -127,6 +140,7 @@ pub fn parse_contracts(src: &str) -> Result<Contracts, String> {
         };
         match kw {
             "binder" => fc.binder = Some(rest.to_string()),
+            "only" => fc.only_feature = Some(rest.trim().to_string()),
             "props" => fc.props = rest.split(|c: char| c == ',' || c.is_whitespace()).filter(|x| !x.is_empty()).map(|x| x.to_string()).collect(),
             "attr" => fc.attrs.push(rest.to_string()),
             "with" => fc.with = Some(rest.to_string()),
@@ -151,6 +165,27 @@ pub fn parse_contracts(src: &str) -> Result<Contracts, String> {
                     "proof" => lc.proof_head = Some(r.to_string()),
                     other => return Err(format!("line {}: unknown loop directive `{}`", ln, other)),
                 }
+            }
+            "closure" => {
+                let mut it = rest.splitn(3, char::is_whitespace);
+                let k: usize = it.next().unwrap_or("").parse().map_err(|_| format!("line {}: closure ordinal", ln))?;
+                let sub = it.next().unwrap_or("");
+                let r = it.next().unwrap_or("").trim();
+                let cc = fc.closures.entry(k).or_default();
+                match sub {
+                    "binder" => cc.binder = Some(r.to_string()),
+                    "requires" | "ensures" => {
+                        let (name, strength, expr) = split_named(r, ln)?;
+                        let cl = Clause { name, text: expr, strength, src_line: ln };
+                        if sub == "requires" { cc.requires.push(cl) } else { cc.ensures.push(cl) }
+                    }
+                    other => return Err(format!("line {}: unknown closure directive `{}`", ln, other)),
+                }
+            }
+            "ghost" => {
+                let (pos, body) = rest.split_once(':').ok_or_else(|| format!("line {}: ghost begin:", ln))?;
+                if pos.trim() != "begin" { return Err(format!("line {}: only `ghost begin:`", ln)); }
+                fc.ghost_begin = Some(body.trim().to_string());
             }
             "proof" => {
                 let (pos, body) = rest.split_once(':').ok_or_else(|| format!("line {}: proof begin:/end:", ln))?;
